@@ -65,6 +65,7 @@ type hist struct {
 	blocksInEpoch int
 	blockNo       int
 	nReorgs       int
+	floods        int
 	forced        []*txRec       // when non-nil: exactly these submissions for the coming block
 	graphSent     map[int]uint64 // edge index -> height of the last DelegateTx submission
 	flagsAt       map[uint64]int
@@ -352,6 +353,24 @@ func (h *hist) genTxs() []*txRec {
 		res = append(res, r)
 		if counts {
 			pend[r.from]++
+		}
+	}
+	if !h.cfg.heavy && h.floods < 3 && h.rnd.Intn(30) == 0 && s.GetBalance(h.w.Addrs[0]).Cmp(sim.Dna(40000, 1)) > 0 {
+		// a flood: large transactions in nonce order whose total gas crosses the block gas cap (the builder, the
+		// proposer's filter and the validators must agree where the block ends)
+		h.floods++
+		for i := 0; i < 7; i++ {
+			payload := make([]byte, 60000+h.rnd.Intn(60000))
+			h.rnd.Read(payload)
+			to := h.w.Addrs[1+h.rnd.Intn(8)]
+			r := h.mkTx(0, types.SendTx, &to, sim.Dna(1, 1), payload, 0, 0, pend)
+			r.tx = h.w.Tx(sim.TxSpec{From: 0, To: &to, Type: types.SendTx, Amount: sim.Dna(1, 1), MaxFee: sim.Dna(4000, 1),
+				Nonce: r.tx.AccountNonce, Epoch: r.tx.Epoch, Payload: payload})
+			delete(h.recs, "") // (the record is re-keyed below)
+			r.m["maxfee"] = sim.Limbs(r.tx.MaxFeeOrZero())
+			r.m["flood"] = true
+			h.recs[r.tx.Hash().Hex()] = r
+			add(r, true)
 		}
 	}
 	for i := 0; i < n; i++ {
